@@ -55,6 +55,8 @@ type c16Case struct {
 	floatRange bool
 	// types of other widths that carry the same range text as the leaf (the text has min or max in it)
 	sameText []*yang.Stmt
+	// identityref: the leaf comes into its module through a grouping of the module that defines the base
+	viaGrouping bool
 }
 
 func errFields(err error) (path, msg, tag string) {
@@ -428,12 +430,24 @@ func c16Gen(seed int64, idx int) *c16Case {
 		// the leaf lives in idm1 (base local) or in t16 (everything foreign)
 		derived := [][2]string{{"local-derived", "idm1"}, {"mid", "idm2"}, {"leaf-id", "idm3"}, {"deep", "idm2"}, {"mid", "idm3"}, {"sub-of-homonym", "idm3"}}
 		c.model = &yang.RType{Kind: "identityref", Idents: map[string]bool{}}
-		if r.Bool() {
+		switch r.Intn(4) {
+		case 0:
 			c.leafMod = "idm1"
 			typ = yang.S("type", "identityref", yang.S("base", "base-id"))
-		} else {
+		case 1:
 			m.Add(yang.S("import", "idm1", yang.S("prefix", "ii")))
 			typ = yang.S("type", "identityref", yang.S("base", "ii:base-id"))
+		case 2:
+			// the type statement is written in idm1 (a typedef there), the leaf in t16: what a value may
+			// leave unqualified goes by the module of the leaf
+			m.Add(yang.S("import", "idm1", yang.S("prefix", "ii")))
+			i1.Add(yang.S("typedef", "idref-t", yang.S("type", "identityref", yang.S("base", core.Pick(r, []string{"base-id", "i1:base-id"})))))
+			typ = yang.S("type", "ii:idref-t")
+		default:
+			// the leaf itself is written in idm1 (in a grouping there) and used in t16
+			m.Add(yang.S("import", "idm1", yang.S("prefix", "ii")))
+			typ = yang.S("type", "identityref", yang.S("base", "base-id"))
+			c.viaGrouping = true
 		}
 		for _, dm := range derived {
 			id, mod := dm[0], dm[1]
@@ -456,6 +470,10 @@ func c16Gen(seed int64, idx int) *c16Case {
 	}
 	leaf := yang.S("leaf", "l", typ)
 	cont := yang.S("container", "c16c", leaf)
+	if c.viaGrouping {
+		c.mods[0].Add(yang.S("grouping", "idg", leaf))
+		cont = yang.S("container", "c16c", yang.S("uses", "ii:idg"))
+	}
 	if c.kind == "string" && typ.Arg == "string" && r.Chance(1, 2) {
 		// the same restrictions written on a type that is reached through one to four typedefs, with two more
 		// references to the same typedef next to the leaf (each with a pattern of its own that rejects nothing)
